@@ -306,7 +306,8 @@ CHECKS += [
               "untagged) through (A) the REAL qp.snapshots tape transform (prefix tapes run on the lifted default.qubit, real post-processing) and (B) default.qubit and "
               "default.mixed with an active snapshot debugger (apply_operation's Snapshot branch). z3 proves for ALL angles that every tag holds the requested measurement "
               "of the gate prefix (matrix-route oracle) and that the final results equal those of the circuit without snapshots; keys and their order are compared structurally.",
-         note=PROOF_NOTE + " Outside: snapshots with shots, qp.snapshots(qnode) wrapper plumbing, duplicate string tags, legacy / gaussian devices.",
+         note=PROOF_NOTE + " Plus one structural obligation (concrete arguments, no solver): the same qp.snapshots(qnode) wrapper called four times, with a tag that depends on the arguments, behaves like a fresh "
+              "wrapper on every call and never alters results it returned earlier. Outside: snapshots with shots, duplicate string tags, legacy / gaussian devices.",
          technique="lifted execution of the snapshot transform and device snapshot branch on z3 circle-polynomial terms; z3 QF_NRA equality proofs"),
 ]
 
